@@ -18,7 +18,7 @@ R7 one credential: exactly one save_credential, outside any loop, and Ok passes 
 R8 id length     : CredentialIdLength's field is private; its constructors clamp to MIN=16..=MAX=64.
 Not decided: validity of the P-256 point, DER≡COSE as byte strings, randomness quality.
 """
-from . import core, flow, names, summary
+from . import core, flow, names, normal, summary
 from .framework import where, short, api_name
 from .common import AUTH, CLIENT, ceremony, find_aggs, term_fields
 
@@ -267,31 +267,34 @@ def run(chk):
     ca = p.method(AUTH, "choose_algorithm")
     if chk.require("R6 algorithm", "R6|choose_algorithm", ca, AUTH, "choose_algorithm not found"):
         chk.touched(ca)
-        Tc = flow.Terms(p, ca)
-        rt = flow.simplify_term(Tc.place(0, (), ca.return_blocks()[0], "t"))
-        fnd = find(rt, lambda x: is_call(x, "Iterator::find") or is_call(x, "Iterator::find_map") or is_call(x, "Iterator::position"))
+        # the decision table in normal form: Ok(the first element of the request list that the predicate accepts).alg / Err
+        S = summary.Summaries(p)
+        N = normal.Normalizer(p, S)
+        rws = normal.rows(S, ca, N)
+        is_find = lambda x: (is_call(x, "Iterator::find") or is_call(x, "slice::Iter::find")) and x[2][0] == ("param", 2)
         bad = [core.callee_of(t) for b in p.nested(ca.path) for bb3, t in b.calls() if names.call_is(t, *REV)]
-        pred_ok = False
-        sel_ok = False
+        oks = [o for o in rws if o.variant[:1] == ("Ok",)]
+        errs = [o for o in rws if o.variant[:1] == ("Err",)]
+        pred_ok = sel_ok = err_ok = False
+        fnd = None
+        for o in oks:
+            fnd = find(o.value, is_find)
         if fnd is not None:
             pr = closure_ret(p, fnd[2][1])
+            pr = N.inline(pr) if pr is not None else None
             pred_ok = pr is not None and find(pr, lambda x: is_call(x, "slice::contains") or is_call(x, "Vec::contains")) is not None and has(pr, lambda x: isinstance(x, tuple) and len(x) == 3 and x[0] == "field" and x[2] == "algs") and has(pr, lambda x: isinstance(x, tuple) and len(x) == 3 and x[0] == "field" and x[2] == "alg")
-            src_ok = fnd[2][0] == ("param", 2)
-            mp = find(rt, lambda x: is_call(x, "Option::map"))
-            mr = closure_ret(p, mp[2][1]) if mp else None
-            sel_ok = src_ok and mr is not None and mr == ("field", ("param", 2), "alg")
-        err_ok = has(rt, lambda x: isinstance(x, tuple) and len(x) == 4 and x[0] == "agg" and x[2] == "UnsupportedAlgorithm")
+            sel_ok = all(dict(o.value[3]).get("0") == ("field", ("payload", fnd), "alg") and any(flow.asserts_ok(t, l, lambda x: x == fnd) for t, l, f, w in o.conds) for o in oks)
+            err_ok = bool(errs) and all(has(o.value, lambda x: isinstance(x, tuple) and len(x) == 4 and x[0] == "agg" and x[2] == "UnsupportedAlgorithm") and any(flow.asserts_fail(t, l, lambda x: x == fnd) for t, l, f, w in o.conds) for o in errs)
         chk.ob("R6 algorithm", "R6|choose_algorithm|forward-first-match", fnd is not None and not bad and pred_ok and sel_ok and err_ok, where(ca),
-               "result = %s ; reversing adaptors: %s ; predicate = membership in self.algs: %s" % (flow.term_str(rt)[:200], bad or "none", pred_ok))
+               "table: %s ; reversing adaptors: %s ; predicate = membership in self.algs: %s ; Ok = found.alg: %s ; Err(UnsupportedAlgorithm) iff nothing found: %s"
+               % (["%s <= %s" % (flow.term_str(o.value)[:60], o.cond_strs()) for o in rws][:3], bad or "none", pred_ok, sel_ok, err_ok))
     alg_arg = find(kp_pub, lambda x: is_call(x, "Authenticator::choose_algorithm"))
     chk.ob("R6 algorithm", "R6|make_credential|chosen-algorithm-used", alg_arg is not None and alg_arg[2][1] == ("field", ("upvar", 1), "pub_key_cred_params"), where(mc, ab),
            "key pair algorithm = %s" % (flow.term_str(alg_arg) if alg_arg else "?"))
     # error precedes creation
-    tries = [t for t in flow.try_sites(mc)]
-    ct = [t for t in tries if t["operand"] and is_call(flow.simplify_term(Tm.operand({"k": "copy", "place": {"l": t["operand"][0], "p": [], "s": ""}}, t["branch_bb"], "t")), "Authenticator::choose_algorithm")]
     gen = [bb3 for bb3, t in mc.calls() if names.call_is(t, "SecretKey::random", "CredentialStore::save_credential", "random_vec")]
-    ok = len(ct) == 1 and flow.cut_by_edges(mc, 0, gen, [(ct[0]["switch_bb"], ct[0]["continue_bb"])])
-    chk.ob("R6 algorithm", "R6|make_credential|unsupported-fails-before-creation", ok, where(mc, ct[0]["branch_bb"]) if ct else where(mc), "key/id generation and save are cut by the success edge of choose_algorithm's `?`: %s" % ok)
+    ok, edges = flow.cut_by_success(p, mc, lambda x: is_call(x, "Authenticator::choose_algorithm"), gen, Tm)
+    chk.ob("R6 algorithm", "R6|make_credential|unsupported-fails-before-creation", ok, where(mc, edges[0][0]) if edges else where(mc), "key/id generation and save are cut by the success edge of the test on choose_algorithm's result: %s" % ok)
     # R7
     saves = names.calls_to(mc, "CredentialStore::save_credential")
     in_cycle = bool(saves) and saves[0][0] in mc.reachable(mc.succs(saves[0][0]), follow_yield_drop=False)
